@@ -24,7 +24,7 @@ MANIFEST = dict(
          "C06_headers_text); the interface-level glue of cookClient in closed form for EVERY interface (C06_generate_closed: a Fatal ends the run, otherwise one "
          "generated method per method whose directive is read, in order; C06_method_one_plan; C06_cooked_total: cooking never fails inside the region); "
          "duplicate aliases are rejected (C06_dup_alias_rejected); when the chain retries, every attempt is that request under the caller's context (C06_attempt, C06_attempt_identity). "
-         "Two finding regions with witness theorems (both pinned by the rest golden); eight former ones (the last: F_retryBody, 371dec3) were repaired "
+         "Three finding regions with witness theorems (F_ptrDict, F_nilStructDeref pinned by the rest golden; F_aliasInPath: a path segment spelling `alias=` is read as the alias directive); eight former ones (the last: F_retryBody, 371dec3) were repaired "
          "in /repo and are stated as *_fixed / asserted as WF. Tied to the code (a) by generating clients with the rebuilt `shoot rest` from random interfaces, compiling "
          "them and recording the requests they send through a recording RoundTripper (nil pointers, URL-unsafe strings; url.JoinPath / "
          "Values.Encode / Header.Add / json.Marshal evaluated by the real functions) — through a plain client, a logging chain, and a chain with "
@@ -33,13 +33,13 @@ MANIFEST = dict(
          "the real regexps (verif hook internal/restclient/verif_export.go) on thousands of random and rendered texts.",
     note="Lean kernel + standard axioms. Proved from the doc text to the request (C06_request_text); what go/ast hands to cookClient (doc texts, "
          "flattened parameter lists, struct field lists) is an input of the model, tied by the correspondence. Known findings: F_ptrDict, F_nilStructDeref (repairs would change "
-         "the committed golden: notes/proposed/REST_REPAIRS.md). Repaired in /repo and asserted as WF / Rejected: F_mixedCtx, F_bodyNoStruct, duplicate "
+         "the committed golden: notes/proposed/REST_REPAIRS.md), F_aliasInPath (repair: notes/proposed/rest_aliasInPath.diff). Repaired in /repo and asserted as WF / Rejected: F_mixedCtx, F_bodyNoStruct, duplicate "
          "aliases, F_twoDicts, F_qualScalar, F_structElsewhere, F_headerValue, F_pathArgBrace, F_retryBody.",
     technique="Lean 4 proof (induction over parameter lists, token lists, Go-map association lists, directive texts) + differential model/implementation "
               "correspondence on generated, compiled and executed clients + in-process regexp differential + regenerated facts tables",
     design="5/C06")
 
-FINDING_REGIONS = ["F_ptrDict", "F_nilStructDeref"]
+FINDING_REGIONS = ["F_ptrDict", "F_nilStructDeref", "F_aliasInPath"]
 
 
 def make_case(cid, iface, calls):
@@ -50,6 +50,12 @@ def make_case(cid, iface, calls):
         import zlib
         h = zlib.crc32(("%s|%s" % (iface["name"], "|".join(m["name"] + m["path"] for m in iface["methods"]))).encode())
         iface["layout"] = restgen.DECL_LAYOUTS[(h // 7) % len(restgen.DECL_LAYOUTS)] if h % 7 < 3 else "single"
+    if "embedpos" not in iface:
+        # where the embedded shoot.RestClient[T] (with the headers= comment) stands among the methods: first (the README way) in about
+        # half of the interfaces, else after the k-th method — again a function of the content
+        import zlib
+        h = zlib.crc32(("pos|%s|%s" % (iface["name"], "|".join(m["name"] + m["path"] for m in iface["methods"]))).encode())
+        iface["embedpos"] = (h // 2) % (len(iface["methods"]) + 1) if h % 2 else 0
     files = restgen.render_package("cs", [iface], modpath=modpath, layout=iface["layout"])
     args = ["rest", "-type=" + iface["name"]]
     blob = json.dumps({"iface": iface, "calls": [{k: v for k, v in c.items() if k != "m"} for c in calls]})
@@ -144,6 +150,11 @@ def shaped(ctx, g):
     i = g.iface(name="Client", nmethods=1, ctx=True)
     i["headers"], i["hbreaks"] = [("X-Mode", "-fast")], []
     out.append(("hdrpunct2", i, calls_for(g, i, 1)))
+    # the embedded shoot.RestClient[T] carrying the headers= comment stands after the first method / after all methods
+    for vi, pos in enumerate((1, 3)):
+        i = g.iface(name="Client", nmethods=3, ctx=True)
+        i["headers"], i["hbreaks"], i["embedpos"] = [("X-Tenant-Id", "t7"), ("Accept", "text/plain")], ([0] if vi else []), pos
+        out.append(("embedpos%d" % vi, i, calls_for(g, i, 1)))
     # multi-line headers directive, non-canonical keys (WF)
     i = g.iface(name="Client", nmethods=2, ctx=True)
     i["headers"], i["hbreaks"] = [("Authorization", "Bearer abc"), ("x-env", "test"), ("Accept", "text/plain"), ("X-B", "1")], [0, 2]
@@ -182,6 +193,16 @@ def shaped(ctx, g):
                              {"name": "name", "kind": "scalar", "type": "string", "ptr": vi == 1, "role": "query"}]})
         i["structs"] = []
         out.append(("ownname%d" % vi, i, calls_for(g, i, 4)))
+    # F_aliasInPath: a path segment that spells `alias=` is taken for the alias directive (parseAlias searches every `shoot:` line for
+    # `\\Walias=`), the alias line below is ignored and the query parameter travels under its Go name
+    for vi, (verb, path) in enumerate((("GET", "/items/alias=x"), ("DELETE", "/alias=on/list"))):
+        i = g.iface(name="Client", nmethods=1, ctx=True, verb=verb, struct=False, dict=False, nscalar=0, nph=0)
+        m = i["methods"][0]
+        m.update({"path": path, "quoted": True, "alias": [("pageSize", "size")], "tail": "", "aliastail": "",
+                  "params": [{"name": "pageSize", "kind": "scalar", "type": "int", "ptr": vi == 1, "role": "query"},
+                             {"name": "name", "kind": "scalar", "type": "string", "ptr": False, "role": "query"}]})
+        i["structs"] = []
+        out.append(("aliasinpath%d" % vi, i, calls_for(g, i, 2)))
     # unusual base URLs: query string, userinfo, escaped path characters, IPv6 host with port, trailing slashes
     for vi, base in enumerate(restgen.ODD_BASES):
         i = g.iface(name="Client", nmethods=2, ctx=True, verb=restgen.VERBS[vi % 5])
@@ -449,6 +470,10 @@ def attempt_cases(ctx, cases, impl, model):
                 continue
             fails, cancel_after = cl["retry"]
             ref = {side: {k: m[side].get("c%d.%s" % (i, k)) for k in ATT_KEYS + ("body", "ctx")} for side in ("model", "spec")}
+            if (m["region"] or "WF").startswith("F_"):
+                # the call itself is a recorded finding (reported by the parent case): the attempts are held against the request the
+                # call really makes — what is asserted here is that every attempt IS that request
+                ref["spec"] = dict(ref["model"])
             aid = "%s.R%d" % (c["id"], i)
             has_body = ref["model"]["body"] not in (None, "-")
             has_ctx = ref["model"]["ctx"] not in (None, "background")
@@ -499,6 +524,8 @@ def features(c):
     f = []
     i = c["iface"]
     f.append("decl-layout:" + i.get("layout", "single"))
+    ep = min(int(i.get("embedpos") or 0), len(i["methods"]))
+    f.append("embed-position:" + ("first" if ep == 0 else "last" if ep == len(i["methods"]) else "middle") + ("+headers" if i.get("headers") else ""))
     if i.get("headers"):
         f.append("iface-headers")
         if i.get("hbreaks"):
@@ -570,7 +597,8 @@ def run(ctx, obl):
     res.rule = ("seeded random RestClient interfaces (1-4 methods; five verbs in four spellings; quoted/unquoted paths with 0-3 placeholders, literal "
                 "segments with punctuation, optional `;` tails; alias directives for path and query parameters; scalar and pointer-to-scalar parameters "
                 "of six types; struct / pointer-to-struct parameters declared in the same file or in another package with alias tags, pointer fields and "
-                "unexported fields with getters; map parameters of three types; all result shapes; optional interface headers; context parameter at any "
+                "unexported fields with getters; map parameters of three types; all result shapes; optional interface headers on the embedded shoot.RestClient[T], which stands "
+                "first, between or after the methods; context parameter at any "
                 "position or absent), each rendered to a package, `shoot rest` run, the client compiled, obtained with shoot.NewRest and pointed at a "
                 "recording RoundTripper; 3-4 argument vectors per method incl. nil pointers and URL-unsafe strings; plus one shaped interface per finding "
                 "region and per verb. The model's symbolic url.JoinPath / Values.Encode / Header.Add are evaluated by the real functions (harness cmd/rtconf ext), "
